@@ -580,6 +580,54 @@ Definition psite_known (p : psite) : bool :=
   existsb (fun k => String.eqb (fst (fst k)) (p_file p) && String.eqb (snd (fst k)) (p_fn p)
                     && String.eqb (snd k) (p_what p)) known_parallel.
 
+(* Facilities the statement excludes (k-means||, unseeded generators, FastICA with its optional random
+   state, permutation p-values, t-SNE) and the only library-code sites that may refer to them:
+   (facility, file or directory prefix, enclosing type or "*", enclosing function or "*", why).
+   A facility's own defining items, the plumbing through which a *user* selects it, and documented
+   sites.  Anything else - e.g. an estimator of the claim that starts calling k-means|| by itself -
+   is an unexplained reference and breaks [no_unexplained_refs]. *)
+Definition allowed_sites : list (string * string * string * string * string) :=
+  [ ("kmeans_para", "algorithms/linfa-clustering/src/k_means/init.rs", "KMeansInit", "", "definition of the user-selectable enum KMeansInit");
+    ("kmeans_para", "algorithms/linfa-clustering/src/k_means/init.rs", "KMeansInit", "run", "dispatch on the initialiser the user selected");
+    ("kmeans_para", "algorithms/linfa-clustering/src/k_means/init.rs", "", "k_means_para", "the excluded initialiser itself");
+    ("unseeded_rng", "src/correlation.rs", "", "p_values", "permutation p-values, excluded by the statement");
+    ("unseeded_rng", "algorithms/linfa-ica/src/fast_ica.rs", "FastIcaValidParams", "fit", "FastICA without random_state, excluded by the statement");
+    ("unseeded_rng", "datasets/src/generate.rs", "", "make_dataset", "documented: synthetic data generator drawing from caller-supplied distributions, not an estimator");
+    ("fastica", "algorithms/linfa-ica/", "*", "*", "the facility's own crate");
+    ("p_values", "src/correlation.rs", "PearsonCorrelation", "from_dataset", "reached only when the user passes a number of permutations");
+    ("p_values", "src/correlation.rs", "DatasetBase", "pearson_correlation_with_p_value", "the public entry point of the excluded facility");
+    ("tsne", "algorithms/linfa-tsne/", "*", "*", "the facility's own crate") ].
+
+Definition wild_eqb (pat x : string) : bool := String.eqb pat "*" || String.eqb pat x.
+Definition site_matches (a : string * string * string * string * string) (r : fref) : bool :=
+  match a with (fac, file, ty, fn, _) =>
+    String.eqb fac (r_facility r) && String.prefix file (r_file r) && wild_eqb ty (r_type r) && wild_eqb fn (r_fn r)
+  end.
+Definition ref_allowed (r : fref) : bool :=
+  match r_area r with Src => existsb (fun a => site_matches a r) allowed_sites | _ => true end.
+Definition ref_text (r : fref) : string :=
+  r_facility r ++ " (" ++ r_text r ++ ") referenced in " ++ r_file r ++ " item " ++ r_type r ++ "::" ++ r_fn r
+  ++ " under guard [" ++ r_guard r ++ "]".
+Definition unexplained_refs : list string := map ref_text (filter (fun r => negb (ref_allowed r)) facility_refs).
+
+(* stated on the list itself so that a failure prints the offending file, item, facility and guard *)
+Lemma no_unexplained_refs : unexplained_refs = [].
+Proof. vm_compute. reflexivity. Qed.
+
+Lemma refs_allowed_b : forallb ref_allowed facility_refs = true.
+Proof. vm_compute. reflexivity. Qed.
+
+(* the table is not empty and the obligation is not vacuous: library code does refer to each facility,
+   and a reference from the Gaussian mixture to k-means|| would be rejected *)
+Example ex_refs_present :
+  forallb (fun f => existsb (fun r => String.eqb (r_facility r) f && match r_area r with Src => true | _ => false end) facility_refs)
+          ["kmeans_para"; "unseeded_rng"; "fastica"; "p_values"; "tsne"] = true.
+Proof. vm_compute. reflexivity. Qed.
+Example ex_ref_rejected :
+  ref_allowed {| r_facility := "kmeans_para"; r_text := "KMeansPara"; r_file := "algorithms/linfa-clustering/src/gaussian_mixture/algorithm.rs";
+                 r_line := 142%N; r_area := Src; r_type := "GaussianMixtureModel"; r_fn := "new"; r_guard := "hyperparameters.n_clusters() > 100" |} = false.
+Proof. vm_compute. reflexivity. Qed.
+
 Lemma defaults_seeded_b :
   forallb (fun e => match default_seed e with Some _ => true | None => false end) estimators = true.
 Proof. vm_compute. reflexivity. Qed.
